@@ -23,6 +23,44 @@ def unescape(value: str, token: TokenT) -> str:
     return "".join(unescaped)
 
 
+_SHORT_ESCAPES = {
+    "\x08": "\\b",
+    "\x0c": "\\f",
+    "\n": "\\n",
+    "\r": "\\r",
+    "\t": "\\t",
+}
+
+
+def escape(value: str, quote: str = "'") -> str:
+    """Return _value_ with escape sequences where a string literal needs them.
+
+    The result, surrounded by _quote_, is a Liquid string literal that evaluates
+    to _value_.
+    """
+    escaped: list[str] = []
+    for index, ch in enumerate(value):
+        if ch == "\\":
+            escaped.append("\\\\")
+        elif ch == quote:
+            escaped.append("\\" + quote)
+        elif ch == "$" and value[index + 1 : index + 2] == "{":
+            escaped.append("\\$")
+        elif ch in _SHORT_ESCAPES:
+            escaped.append(_SHORT_ESCAPES[ch])
+        elif ord(ch) < 0x20 or 0x7F <= ord(ch) <= 0x9F:
+            escaped.append(f"\\u{ord(ch):04x}")
+        else:
+            escaped.append(ch)
+    return "".join(escaped)
+
+
+def quote_string(value: str) -> str:
+    """Return _value_ as a quoted Liquid string literal."""
+    quote = '"' if "'" in value and '"' not in value else "'"
+    return f"{quote}{escape(value, quote)}{quote}"
+
+
 def _decode_escape_sequence(  # noqa: PLR0911
     value: str, index: int, token: TokenT
 ) -> tuple[str, int]:
